@@ -206,7 +206,19 @@ BDD_OP_MUTS.update({
  'obdd_result_other_ordering': (O, "        return OBDD(bdd, self.ordering, check_ordering=False)", "        return OBDD(B.root, self.ordering, check_ordering=False)", ['OBDD.apply']),
 })
 
-BY_PROPERTY = {'C13': [GRAPH_MUTS], 'C14': [KRIPKE_MUTS], 'C01': [CTL_MUTS], 'C05': [REWRITE_MUTS], 'C16': [BDD_MUTS], 'C03': [CTLS_MUTS], 'C07': [CTLS_MUTS], 'C15': [FAIR_MUTS], 'C17': [BDD_OP_MUTS], 'C02': [LTL_MUTS], 'C10': [PARSER_MUTS]}
+OBDD_PARSE_MUTS = {
+ 'parse_and_as_or': (O, "    if isinstance(node.op, ast.BitAnd):\n        return (parse_binary_expr(ordering, node.left) &", "    if isinstance(node.op, ast.BitAnd):\n        return (parse_binary_expr(ordering, node.left) |", ['parse_binary_op']),
+ 'parse_and_unit_false': (O, "        result = OBDD(BDDNode(True), ordering)\n", "        result = OBDD(BDDNode(False), ordering)\n", ['parse_binary_binary_op']),
+ 'parse_or_uses_and': (O, "            result = result | parse_binary_expr(ordering, arg)", "            result = result & parse_binary_expr(ordering, arg)", ['parse_binary_binary_op']),
+ 'parse_name_true_is_false': (O, "    if node.id == 'True':\n        return OBDD(BDDNode(True), ordering)", "    if node.id == 'True':\n        return OBDD(BDDNode(False), ordering)", ['parse_name']),
+ 'parse_name_children_swapped': (O, "    return OBDD(BDDNode(node.id, BDDNode(False), BDDNode(True)), ordering)", "    return OBDD(BDDNode(node.id, BDDNode(True), BDDNode(False)), ordering)", ['parse_name']),
+ 'parse_not_dropped': (O, "        return ~parse_binary_expr(ordering, node.operand)", "        return parse_binary_expr(ordering, node.operand)", ['parse_binary_unary_op']),
+ 'parse_constant_only_zero': (O, "        if node.value in [0, 1]:", "        if node.value in [0]:", ['parse_binary_expr']),
+ 'parse_skips_last_operand_kind': (O, "    if isinstance(node, ast.UnaryOp):\n        return parse_binary_unary_op(ordering, node)", "    if isinstance(node, ast.UnaryOp):\n        return parse_binary_expr(ordering, node.operand)", ['parse_binary_expr']),
+ 'parse_or_accepts_any_boolop': (O, "    if isinstance(node.op, ast.Or):\n        result = OBDD(BDDNode(False), ordering)", "    if not isinstance(node.op, ast.And):\n        result = OBDD(BDDNode(False), ordering)", ['parse_binary_binary_op']),
+}
+
+BY_PROPERTY = {'C13': [GRAPH_MUTS], 'C14': [KRIPKE_MUTS], 'C01': [CTL_MUTS], 'C05': [REWRITE_MUTS], 'C16': [BDD_MUTS], 'C03': [CTLS_MUTS], 'C07': [CTLS_MUTS], 'C15': [FAIR_MUTS], 'C17': [BDD_OP_MUTS], 'C18': [OBDD_PARSE_MUTS], 'C02': [LTL_MUTS], 'C10': [PARSER_MUTS]}
 # equivalent mutants (the change does not alter behaviour) are excluded from the requirement
 EQUIVALENT = {'sub_S0_all'}
 
